@@ -2160,6 +2160,8 @@ impl SpeechRules {
         }
         let should_ignore_file_time = self.pref_manager.borrow().pref_to_string("CheckRuleFiles") != "All";     // ignore for "None", "Prefs"
         let rule_file = self.pref_manager.borrow().get_rule_file(&self.name).to_path_buf();     // need to create PathBuf to avoid a move/use problem
+        #[cfg(mathcat_verif)]
+        verif::log_load(&format!("{}:rules", self.name), &rule_file, self.rules.is_empty() || !self.rule_files.is_file_up_to_date(&rule_file, should_ignore_file_time));
         if self.rules.is_empty() || !self.rule_files.is_file_up_to_date(&rule_file, should_ignore_file_time) {
             self.rules.clear();
             let files_read = self.read_patterns(&rule_file)?;
@@ -2169,11 +2171,18 @@ impl SpeechRules {
         let pref_manager = self.pref_manager.borrow();
         let unicode_pref_files = if self.name == RulesFor::Braille {pref_manager.get_braille_unicode_file()} else {pref_manager.get_speech_unicode_file()};
 
+        #[cfg(mathcat_verif)]
+        verif::log_load(if self.name == RulesFor::Braille {"braille:unicode"} else {"speech:unicode"}, unicode_pref_files.0,
+                        !self.unicode_short_files.borrow().is_file_up_to_date(unicode_pref_files.0, should_ignore_file_time));
         if !self.unicode_short_files.borrow().is_file_up_to_date(unicode_pref_files.0, should_ignore_file_time) {
             self.unicode_short.borrow_mut().clear();
             self.unicode_short_files.borrow_mut().set_files_and_times(self.read_unicode(None, true)?);
         }
 
+        #[cfg(mathcat_verif)]
+        verif::log_load(if self.name == RulesFor::Braille {"braille:definitions"} else {"speech:definitions"}, pref_manager.get_definitions_file(self.name != RulesFor::Braille),
+                        self.definitions_files.borrow().ft.is_empty() || !self.definitions_files.borrow().is_file_up_to_date(
+                            pref_manager.get_definitions_file(self.name != RulesFor::Braille), should_ignore_file_time));
         if self.definitions_files.borrow().ft.is_empty() || !self.definitions_files.borrow().is_file_up_to_date(
                             pref_manager.get_definitions_file(self.name != RulesFor::Braille),
                             should_ignore_file_time
@@ -2576,6 +2585,9 @@ impl<'c, 's:'c, 'r, 'm:'c> SpeechRulesWithContext<'c, 's,'m> {
                 let pref_manager = rules.pref_manager.borrow();
                 let unicode_pref_files = if rules.name == RulesFor::Braille {pref_manager.get_braille_unicode_file()} else {pref_manager.get_speech_unicode_file()};
                 let should_ignore_file_time = pref_manager.pref_to_string("CheckRuleFiles") == "All";
+                #[cfg(mathcat_verif)]
+                verif::log_load(if rules.name == RulesFor::Braille {"braille:unicode-full"} else {"speech:unicode-full"}, unicode_pref_files.1,
+                                rules.unicode_full.borrow().is_empty() || !rules.unicode_full_files.borrow().is_file_up_to_date(unicode_pref_files.1, should_ignore_file_time));
                 if rules.unicode_full.borrow().is_empty() || !rules.unicode_full_files.borrow().is_file_up_to_date(unicode_pref_files.1, should_ignore_file_time) {
                     info!("*** Loading full unicode {} for char '{}'/{:#06x}", rules.name, ch, ch_as_u32);
                     rules.unicode_full.borrow_mut().clear();
@@ -2800,5 +2812,23 @@ pub mod verif {
 
     pub fn take_array_log() -> Vec<(Vec<String>, Vec<String>)> {
         return ARRAY_LOG.with(|log| log.replace(vec![]));
+    }
+
+    thread_local!{
+        static LOAD_LOG: std::cell::RefCell<Vec<(String, String, bool)>> = const { std::cell::RefCell::new(vec![]) };
+    }
+
+    /// records one cache check: which cache, the key the preferences ask for (a file path, the separator pair), whether it is (re)loaded
+    pub fn log_load(kind: &str, key: &std::path::Path, reload: bool) {
+        LOAD_LOG.with(|log| {
+            let mut log = log.borrow_mut();
+            if log.len() < 100000 {
+                log.push((kind.to_string(), key.to_string_lossy().to_string(), reload));
+            }
+        });
+    }
+
+    pub fn take_load_log() -> Vec<(String, String, bool)> {
+        return LOAD_LOG.with(|log| log.replace(vec![]));
     }
 }
